@@ -1,4 +1,5 @@
 import Prism.Proofs.C18
+import Prism.Proofs.C18Body
 
 #print axioms Prism.C18_pulled_bound
 #print axioms Prism.C18_within_64k
@@ -6,3 +7,4 @@ import Prism.Proofs.C18
 #print axioms Prism.C18_result_is_functional
 #print axioms Prism.C18_auto_chain
 #print axioms Prism.C18_auto_within_64k
+#print axioms Prism.Png.C18_png_body_unread
